@@ -2,7 +2,7 @@
 from ..atomic import AtomicPart
 from ..runner import run_check
 
-SCENARIOS = ["race", "two_stops", "self_dereg", "dereg_other", "reg_after_stop", "two_owners"]
+SCENARIOS = ["race", "two_stops", "self_dereg", "dereg_other", "reg_after_stop", "two_owners", "late_stop_dereg", "late_stop_self_dereg"]
 
 
 def run(tier, seed, replay=None):
